@@ -22,7 +22,7 @@
    S : [no_loss], [converged], [step] / [reach] (every interleaving of
        transfers of all nodes with arbitrary faults). *)
 From Coq Require Import List NArith Bool Arith Relations.
-From Semadb Require Import Bytes.
+From Semadb Require Import Bytes Model_C13.
 Import ListNotations.
 
 Definition node := bytes.
@@ -79,6 +79,10 @@ Definition put_rec {A} (st : state A) (n : node) (k : key) (v : value) : state A
   upd st n (mkN (al_put key_dec k v (recs (st n))) (files (st n))).
 Definition del_rec {A} (st : state A) (n : node) (k : key) : state A :=
   upd st n (mkN (al_del key_dec k (recs (st n))) (files (st n))).
+
+(* a state given as a list of (node, content) *)
+Definition mk_state {A} (l : list (node * nstate A)) : state A :=
+  fun n => match al_get node_dec n l with Some x => x | None => mkN [] [] end.
 
 (* faults of the record phase, per destination: the RPC fails (nothing is
    written: RPCSetNodeKeyValue is one bbolt transaction), or the RPC succeeded
@@ -264,12 +268,25 @@ Section Model.
   Definition agree_recs (st : state A) : Prop :=
     forall n1 n2 k v1 v2, rec_ st n1 k = Some v1 -> rec_ st n2 k = Some v2 -> v1 = v2.
   Definition nonempty_files (st : state A) : Prop := forall n p f, file st n p = Some f -> f <> [].
+  Definition good (st : state A) : Prop := agree_files st /\ agree_recs st /\ nonempty_files st.
   Definition once_files (st : state A) : Prop :=
     forall n1 n2 p, file st n1 p <> None -> file st n2 p <> None -> n1 = n2.
   Definition collision_free (st : state A) : Prop :=
     forall n p f, file st n p = Some f -> forall g, hash g = hash f -> g = f.
+  (* every node that holds anything takes part *)
   Definition covers (order : list node) (st : state A) : Prop :=
-    forall n, ~ In n order -> recs (st n) = [] /\ files (st n) = [].
+    forall n, ~ In n order -> (forall p, file st n p = None) /\ (forall k, rec_ st n k = None).
+
+  Definition covers_phases (sched : list phase) (st : state A) : Prop :=
+    forall n, ((exists rf, In (PRec n rf) sched) \/ forall k, rec_ st n k = None) /\
+              ((exists ff, In (PShard n ff) sched) \/ forall p, file st n p = None).
+
+  (* n further fault-free attempts to send p from src to dst *)
+  Fixpoint retries (fixed : bool) (n : nat) (src dst : node) (p : path) (st : state A) : state A :=
+    match n with
+    | O => st
+    | S k => fst (send_file fixed None src dst p (retries fixed k src dst p st))
+    end.
 
   (* conclusions *)
   Definition no_loss (st0 st : state A) : Prop :=
@@ -283,9 +300,39 @@ Section Model.
 End Model.
 
 (* ------------------------------------------------------------------ *)
-(* a small executable instance used by the Examples: contents are byte
-   lists, the checksum of a file is Some of the file itself (injective, and
-   different from the zero checksum None) *)
+(* routing as the code does it (Model_C13): RendezvousHash(key, servers, 1)[0] with
+   xxhash64; a record is routed by the user id (its key up to the first "/"),
+   a shard file by its shard id *)
+Fixpoint user_of (k : bytes) : bytes :=
+  match k with [] => [] | x :: r => if (x =? 47)%N then [] else x :: user_of r end.
+Definition own (servers : list bytes) (k : bytes) : node :=
+  match owner xxh64 k servers with Some s => s | None => [] end.
+Definition own_r (servers : list bytes) (k : key) : node := own servers (user_of k).
+Definition own_f (servers : list bytes) (p : path) : node := own servers (snd p).
+
+(* ------------------------------------------------------------------ *)
+(* executable instances used by the Examples *)
+Definition unit_dec (a b : unit) : {a = b} + {a <> b} := match a, b with tt, tt => left eq_refl end.
+(* (1) the checksum of a file is Some of the file itself: injective, and different from
+   the zero checksum None *)
 Definition id_hash (l : list N) : option (list N) := Some l.
 Definition optl_dec : forall a b : option (list N), {a = b} + {a <> b}.
 Proof. repeat decide equality. Defined.
+
+From Coq Require Import String.
+(* (2) three servers, data placed for the old list [n1; n2] *)
+Definition ex_n1 : node := str "n1:9"%string. Definition ex_n2 : node := str "n2:9"%string. Definition ex_n3 : node := str "n3:9"%string.
+Definition ex_servers : list bytes := [ex_n1; ex_n2; ex_n3].
+Definition ex_p1 : path := (str "u1"%string, str "c1"%string, str "s1"%string).
+Definition ex_p2 : path := (str "u2"%string, str "c1"%string, str "s2"%string).
+Definition ex_p3 : path := (str "u1"%string, str "c1"%string, str "s5"%string).
+Definition ex_f1 : list N := [1; 2; 3; 4; 5; 6; 7; 8; 9; 10]%N.
+Definition ex_f2 : list N := [11; 12; 13]%N.
+Definition ex_f3 : list N := [7]%N.
+Definition ex_st0 : state N :=
+  mk_state [ (ex_n1, mkN [(str "u1/c1"%string, [1; 1]%N); (str "u2/c1"%string, [2; 2]%N)] [(ex_p1, ex_f1); (ex_p2, ex_f2)]);
+             (ex_n2, mkN [(str "u5/c9"%string, [3]%N)] [(ex_p3, ex_f3)]) ].
+
+(* (3) two nodes, a constant checksum *)
+Definition ex_a : node := str "a"%string. Definition ex_b : node := str "b"%string.
+Definition ex_stc : state N := mk_state [ (ex_a, mkN [] [(ex_p1, [1; 2]%N)]) ].
